@@ -85,7 +85,11 @@ def run_case(ctx, gd, q, doms):
     g = gg.to_nx(gd)
     kernel.LOG.reset_case({"graph": gd, "X": q["X"], "Y": q["Y"], "domains": doms})
     so = {Variable(p): {Variable(w) for w in zw[1]} for p, zw in doms.items()}
-    si = {Variable(p): {Variable(z) for z in zw[0]} for p, zw in doms.items()}
+    # the two per-domain dictionaries are keyed by domain; a caller need not list the domains in the same order
+    keys = list(doms)
+    if sum(map(ord, gg.key(gd))) % 2:
+        keys.reverse()
+    si = {Variable(p): {Variable(z) for z in doms[p][0]} for p in keys}
     res = None
     try:
         res = identify_target_outcomes(g, target_outcomes={Variable(y) for y in q["Y"]},
